@@ -213,7 +213,11 @@ func (r *Report) Bound(name string, v any) { r.mu.Lock(); r.bound[name] = v; r.m
 func (r *Report) Extra(name string, v any) { r.mu.Lock(); r.extra[name] = v; r.mu.Unlock() }
 
 // Assume records an assumption of the check.
-func (r *Report) Assume(s string) { r.mu.Lock(); r.assumptions = append(r.assumptions, s); r.mu.Unlock() }
+func (r *Report) Assume(s string) {
+	r.mu.Lock()
+	r.assumptions = append(r.assumptions, s)
+	r.mu.Unlock()
+}
 
 // Violations returns the number of distinct violation keys recorded.
 func (r *Report) Violations() int { r.mu.Lock(); defer r.mu.Unlock(); return len(r.violations) }
